@@ -106,7 +106,19 @@ impl Story {
         let mut output_stream_ends_in_newline = false;
         self.saw_lookahead_unsafe_function_after_new_line = false;
 
+        #[cfg(feature = "verif-hooks")]
+        let mut verif_steps_this_call: u32 = 0;
+
         loop {
+            #[cfg(feature = "verif-hooks")]
+            if let Some(fuel) = self.verif_fuel.as_mut() {
+                if *fuel == 0 {
+                    self.add_error("VERIF_FUEL", false);
+                    break;
+                }
+                *fuel -= 1;
+            }
+
             match self.continue_single_step() {
                 Ok(r) => output_stream_ends_in_newline = r,
                 Err(e) => {
@@ -117,6 +129,16 @@ impl Story {
 
             if output_stream_ends_in_newline {
                 break;
+            }
+
+            #[cfg(feature = "verif-hooks")]
+            if self.async_continue_active
+                && let Some(budget) = self.verif_async_step_budget
+            {
+                verif_steps_this_call += 1;
+                if verif_steps_this_call >= budget {
+                    break;
+                }
             }
 
             // Run out of async time?
